@@ -12,7 +12,7 @@
 (* The lines are a SET: their order in the file is irrelevant, several     *)
 (* lines may share a measure and channel.  4/4 only (no channel 02).       *)
 (***************************************************************************)
-EXTENDS BeatTime
+EXTENDS BeatTime, TLC, SequencesExt
 
 Layout(name) ==
     CASE name = "BMS" -> [ c \in {"11","21","12","22","13","23","14","24","15","25","16","26","17","27"} |->
@@ -54,10 +54,11 @@ RECURSIVE MStart(_, _)
 MStart(f, m) == IF f.sigs = <<>> THEN 19200 * m ELSE IF m = 0 THEN 0 ELSE MStart(f, m - 1) + MLen(f, m - 1)
 TempoEvents(f) == { x \in Pairs(f) : Ch(f, x) \in {"03", "08"} }
 P4800(f, x) == MStart(f, M(f, x)) + (MLen(f, M(f, x)) * I(f, x)) \div D(f, x)
-RECURSIVE SortTempo(_, _)
-SortTempo(f, S) == IF S = {} THEN <<>>
-                   ELSE LET x == CHOOSE x \in S : \A y \in S : P4800(f, x) <= P4800(f, y) IN
-                        << [p |-> P4800(f, x), bl |-> f.lines[x[1]].objs[x[2]].val] >> \o SortTempo(f, S \ {x})
+(* sorted by position (TLC!SortSeq runs in Java: the CHOOSE-the-minimum recursion was cubic on long tempo lists) *)
+SortTempo(f, S) ==
+    LET keyed == { [p |-> P4800(f, x), bl |-> f.lines[x[1]].objs[x[2]].val, x |-> x] : x \in S }
+        srt == SortSeq(SetToSeq(keyed), LAMBDA a, b : a.p < b.p \/ (a.p = b.p /\ (a.x[1] < b.x[1] \/ (a.x[1] = b.x[1] /\ a.x[2] < b.x[2]))))
+    IN  [k \in DOMAIN srt |-> [p |-> srt[k].p, bl |-> srt[k].bl]]
 TempoList(f) ==
     LET ev == SortTempo(f, TempoEvents(f)) IN
     IF ev # <<>> /\ ev[1].p = 0 THEN ev ELSE << [p |-> 0, bl |-> f.bpm0] >> \o ev
@@ -113,8 +114,9 @@ HoldsMatch(D0, lst, tol(_), withSample) ==
 
 (* every tempo event of the file is a tempo point of the chart at that time (values: C11 reseating) *)
 TempoPresent(f, bpms, tol) ==
-    LET tl == TempoList(f) IN
+    LET tl == TempoList(f)
+        st == Starts(tl, 0) IN
     \A k \in DOMAIN tl : \E i \in DOMAIN bpms :
-        /\ Abs(bpms[i].t - TStart(tl, 0, k)) <= tol
+        /\ Abs(bpms[i].t - st[k]) <= tol
         /\ (k = Len(tl) => Abs(bpms[i].bl - tl[k].bl) <= 1)
 =============================================================================
